@@ -186,6 +186,18 @@ def setup_worker():
     runrt._mods()
 
 
+def history_key(case):
+    """second run in one process: hooks on both layers of a chain, each
+    outcome kind once, both repeat counts"""
+    if case[0] == 2 and [list(b) for b in case[1]] == [[], [0]] and case[2] == 'i' and case[4] == 'both' and len(case[5]) == 1 and len(case) == 8:
+        if case[3] == 3 and case[5][0] in ('pass', 'fail', 'skip_dec', 'sub_skip', 'error', 'kbint') and case[7] == '':
+            return (case[5][0], case[6])
+    return None
+
+
+HISTORY_MAX = 8
+
+
 def run_case(case):
     n, g, kind, hm, side, seq, rep, mode = case[:8]
     spec, argv = build_spec(case)
